@@ -8,6 +8,7 @@ import (
 	"os"
 	"path/filepath"
 	"sort"
+	"time"
 
 	ccpb "github.com/google/go-tdx-guest/proto/checkconfig"
 	"github.com/google/go-tdx-guest/verify"
@@ -81,6 +82,25 @@ func C02(c *core.Ctx) {
 			{"pool=empty", []*x509.Certificate{}}, {"pool=A.tcbsigner", []*x509.Certificate{A.TcbSigner.Cert}}}
 		for i, p := range pools {
 			try("pair", "genuine A quote, "+p.name, wA.Quote.Raw, p.p, lA, iA, i)
+		}
+		// the same pairs with an unset time set (the wall clock, inside every validity window)
+		for _, p := range pools[:4] {
+			sc := scenarioFromWorld(wA, false, false)
+			sc.Now, sc.Wall, sc.Roots = nil, time.Now(), p.p
+			gtPool := p.p
+			if p.p == nil {
+				gtPool = []*x509.Certificate{embeddedRoot}
+			}
+			runScenario(c, "pair-nil-timeset", "genuine A quote, "+p.name+", Now unset", sc, func(cl uint64, err error) string {
+				ok := chainsToPool(lA, iA, gtPool)
+				if cl == 0 && !ok {
+					return "accepted although the chain in the quote does not chain to the trusted pool"
+				}
+				if cl != 0 && ok {
+					return "a quote that chains to the caller's pool was rejected with an unset time set: " + err.Error()
+				}
+				return ""
+			}, true)
 		}
 		// look-alike substitution of one chain element (quote otherwise untouched: signed by A's leaf key)
 		build := func(chain []byte, pckKey *world.Cert) []byte {
@@ -156,6 +176,57 @@ func C02(c *core.Ctx) {
 		}
 		for i, s := range roles {
 			try("role-confusion", s.name, build(s.chain, s.key), s.pool, s.leaf, s.inter, i)
+		}
+		// every role name at every chain position (genuinely issued certificates with another role's name)
+		names := []string{"Intel SGX Root CA", "Intel SGX PCK Platform CA", "Intel SGX PCK Processor CA", "Intel SGX PCK Certificate", "Intel SGX TCB Signing"}
+		for ni, cn := range names {
+			if cn != "Intel SGX PCK Certificate" {
+				l := mk(win(cn, false, true), A.Inter)
+				try("role-names", "leaf named "+cn, build(cat(l, A.Inter, A.Root), l), []*x509.Certificate{rA}, l.Cert, iA, ni)
+			}
+			if cn != "Intel SGX PCK Platform CA" {
+				in := mk(win(cn, true, false), A.Root)
+				l := mk(win("Intel SGX PCK Certificate", false, true), in)
+				try("role-names", "intermediate named "+cn, build(cat(l, in, A.Root), l), []*x509.Certificate{rA}, l.Cert, in.Cert, ni)
+			}
+		}
+	}
+	// the genuine Intel sample quote: accepted under the embedded root, rejected under any other pool
+	if raw, err := readRepoFile("testing/testdata/tdx_prod_quote_SPR_E4.dat"); err == nil {
+		ref := time.Date(2023, time.July, 1, 1, 0, 0, 0, time.UTC)
+		f, _ := layout(raw)
+		var certs []*x509.Certificate
+		rest := f.chain
+		for i := 0; i < 3; i++ {
+			var blk *pem.Block
+			blk, rest = pem.Decode(rest)
+			if blk == nil {
+				break
+			}
+			if cert, err := x509.ParseCertificate(blk.Bytes); err == nil {
+				certs = append(certs, cert)
+			}
+		}
+		foreign := mkPKI(false)
+		for _, p := range []struct {
+			name string
+			pool []*x509.Certificate
+		}{{"embedded root (nil pool)", nil}, {"empty pool", []*x509.Certificate{}}, {"foreign pool", []*x509.Certificate{foreign.Root.Cert}}, {"the embedded root listed explicitly", []*x509.Certificate{embeddedRoot}}} {
+			sc := &Scenario{Raw: raw, Now: &verify.TimeSet{PckCertChain: ref, TcbInfo: ref, QeIdentity: ref, PckCrl: ref, RootCaCrl: ref}, Roots: p.pool, Resp: map[string]world.Resp{}, Wall: ref}
+			gtPool := p.pool
+			if p.pool == nil {
+				gtPool = []*x509.Certificate{embeddedRoot}
+			}
+			runScenario(c, "intel-sample", "Intel sample quote, "+p.name, sc, func(cl uint64, err error) string {
+				ok := len(certs) == 3 && chainsToPool(certs[0], certs[1], gtPool)
+				if cl == 0 && !ok {
+					return "Intel sample quote accepted under a pool that does not contain its root"
+				}
+				if cl != 0 && ok {
+					return "Intel sample quote rejected under its own root: " + err.Error()
+				}
+				return ""
+			}, true)
 		}
 	}
 	c02RootOfTrust(c)
